@@ -102,76 +102,80 @@ Fixpoint phi_pick (pred : N) (ops : list operand) : option operand :=
   | _ => None
   end.
 
-(* one non-terminator instruction; None = halt / stuck *)
-Definition exec (O : oracle) (i : inst) (s : state) : option state :=
+(* one non-terminator instruction.  Halt = the oracle ends the execution here (failed assert, revert in a callee ...);
+   Stuck = the instruction has no meaning (undefined variable, ptr + ptr, malformed instruction) *)
+Inductive outcome := Next (s : state) | Halt | Stuck.
+Definition exec (O : oracle) (i : inst) (s : state) : outcome :=
   if String.eqb (i_op i) "phi" then
     match phi_pick (spred s) (i_args i), i_outs i with
-    | Some o, [x] => match oval s o with Some v => Some (with_vars s (upd (vars s) x v)) | None => None end
-    | _, _ => None
+    | Some o, [x] => match oval s o with Some v => Next (with_vars s (upd (vars s) x v)) | None => Stuck end
+    | _, _ => Stuck
     end
   else
   match ovals s (i_args i) with
-  | None => None
+  | None => Stuck
   | Some args =>
     let op := i_op i in
-    if String.eqb op "nop" then Some s
+    if String.eqb op "nop" then Next s
     else if String.eqb op "assign" then
-      match args, i_outs i with [v], [x] => Some (with_vars s (upd (vars s) x v)) | _, _ => None end
+      match args, i_outs i with [v], [x] => Next (with_vars s (upd (vars s) x v)) | _, _ => Stuck end
     else if String.eqb op "alloca" then
-      match i_outs i with [x] => Some (with_vars s (upd (vars s) x (Some (i_id i), 0))) | _ => None end
+      match i_outs i with [x] => Next (with_vars s (upd (vars s) x (Some (i_id i), 0))) | _ => Stuck end
     else if String.eqb op "add" then
       match args, i_outs i with
-      | [b; a], [x] => match vadd a b with Some v => Some (with_vars s (upd (vars s) x v)) | None => None end
-      | _, _ => None end
+      | [b; a], [x] => match vadd a b with Some v => Next (with_vars s (upd (vars s) x v)) | None => Stuck end
+      | _, _ => Stuck end
     else if String.eqb op "sub" then
       match args, i_outs i with
-      | [b; a], [x] => match vsub a b with Some v => Some (with_vars s (upd (vars s) x v)) | None => None end
-      | _, _ => None end
+      | [b; a], [x] => match vsub a b with Some v => Next (with_vars s (upd (vars s) x v)) | None => Stuck end
+      | _, _ => Stuck end
     else if String.eqb op "mload" then
-      match args, i_outs i with [p], [x] => Some (with_vars s (upd (vars s) x (None, mload (smem s) p))) | _, _ => None end
+      match args, i_outs i with [p], [x] => Next (with_vars s (upd (vars s) x (None, mload (smem s) p))) | _, _ => Stuck end
     else if String.eqb op "mstore" then
       match args, i_outs i with
-      | [v; p], [] => Some (with_mem s (mwrite (smem s) (fst p) (snd p) 32 (byte_of (word_val O v))))
-      | _, _ => None end
+      | [v; p], [] => Next (with_mem s (mwrite (smem s) (fst p) (snd p) 32 (byte_of (word_val O v))))
+      | _, _ => Stuck end
     else if String.eqb op "mcopy" then
       match args, i_outs i with
       | [(None, n); sp; dp], [] =>
           let m := smem s in
-          Some (with_mem s (mwrite m (fst dp) (snd dp) n (fun j => m (fst sp) (snd sp + j))))
-      | _, _ => None end
+          Next (with_mem s (mwrite m (fst dp) (snd dp) n (fun j => m (fst sp) (snd sp + j))))
+      | _, _ => Stuck end
     else if is_nonmem_copy op then
       match args, i_outs i with
-      | [(None, n); sp; dp], [] => Some (with_mem s (mwrite (smem s) (fst dp) (snd dp) n (src_byte O op s sp)))
-      | _, _ => None end
+      | [(None, n); sp; dp], [] => Next (with_mem s (mwrite (smem s) (fst dp) (snd dp) n (src_byte O op s sp)))
+      | _, _ => Stuck end
     else
       match o_step O i args s with
-      | None => None
+      | None => Halt
       | Some (outs, m', rd', w') =>
           match set_outs (vars s) (i_outs i) outs with
-          | None => None
-          | Some vs => Some (mkS vs (if i_wm i then m' else smem s) (if i_wrd i then rd' else srd s) w' (spred s))
+          | None => Stuck
+          | Some vs => Next (mkS vs (if i_wm i then m' else smem s) (if i_wrd i then rd' else srd s) w' (spred s))
           end
       end
   end.
 
 (* a block: all instructions but the last by `exec`, the last (terminator) chooses the successor *)
-Fixpoint exec_block (O : oracle) (b : list inst) (s : state) : option (state * option N) :=
+Inductive bres := BNext (s : state) (l : option N) | BHalt | BStuck.
+Fixpoint exec_block (O : oracle) (b : list inst) (s : state) : bres :=
   match b with
-  | [] => Some (s, None)
+  | [] => BNext s None
   | [t] => match ovals s (i_args t) with
-           | None => None
+           | None => BStuck
            | Some args =>
                match o_next O t args s with
                | Some l => if existsb (fun o => match o with OLab l' => N.eqb l l' | _ => false end) (i_args t)
-                           then Some (s, Some l) else Some (s, None)
-               | None => Some (s, None)
+                           then BNext s (Some l) else BNext s None
+               | None => BNext s None
                end
            end
-  | i :: r => match exec O i s with None => None | Some s' => exec_block O r s' end
+  | i :: r => match exec O i s with Stuck => BStuck | Halt => BHalt | Next s' => exec_block O r s' end
   end.
 
-(* result of a run: the state in which the execution ended (a halt inside a block ends it too) *)
-Inductive result := Done (s : state) | Halted (s : state) | OutOfFuel.
+(* result of a run: Done = the state in which the execution reached a final terminator; Halted = the oracle ended it
+   inside a block (the state at the entry of that block is reported) *)
+Inductive result := Done (s : state) | Halted (s : state) | StuckR | OutOfFuel.
 Fixpoint run (O : oracle) (f : func) (fuel : nat) (l : N) (s : state) : result :=
   match fuel with
   | O => OutOfFuel
@@ -180,9 +184,10 @@ Fixpoint run (O : oracle) (f : func) (fuel : nat) (l : N) (s : state) : result :
     | None => Halted s
     | Some b =>
       match exec_block O b s with
-      | None => Halted s
-      | Some (s', None) => Done s'
-      | Some (s', Some l') => run O f k l' (mkS (vars s') (smem s') (srd s') (sworld s') l)
+      | BStuck => StuckR
+      | BHalt => Halted s
+      | BNext s' None => Done s'
+      | BNext s' (Some l') => run O f k l' (mkS (vars s') (smem s') (srd s') (sworld s') l)
       end
     end
   end.
